@@ -162,6 +162,14 @@ def run_impl(case):
         else:
             tc.update(source(op))
         probe = key(case["probe"])
+        # independence of returned containers (DESIGN 1.2 aliasing): every list a read hands out is mutated in place
+        # (emptied, then junk appended) before the read is repeated for the observation
+        for read in (tc.items, tc.keys, tc.values, tc.most_common, lambda: tc.most_common(case["n"]),
+                     lambda: tc.most_common(10 ** 6)):
+            got = read()
+            if isinstance(got, list):
+                del got[:]
+                got.append(("junk", -1))
         obs.append({
             "total": tc.total,
             "items": [[tok(k), c] for k, c in tc.items()],
